@@ -104,6 +104,10 @@ func ProcessTraceIngest(ctx *fasthttp.RequestCtx, myid int64) {
 					numFailedSpans++
 					continue
 				}
+				// The event time of a span is its start time.
+				if startMs := span.StartTimeUnixNano / 1_000_000; startMs > 0 {
+					ple.SetTimestamp(startMs)
+				}
 				pleArray = append(pleArray, ple)
 			}
 		}
